@@ -79,8 +79,12 @@ def run_case(prog, inputs, mode='plain', with_refs=True, fn_wrap=None, per_emit=
                 r_exc = None
                 try:
                     if mode == 'async':
-                        fut = S[e].emit(x, metadata=md if md else None)
-                        env.loop.drive(max_iters=20000)
+                        try:
+                            fut = S[e].emit(x, metadata=md if md else None)
+                        finally:
+                            # also after a synchronous failure: work already handed to the loop (an
+                            # asynchronous sink of an earlier sibling) belongs to this emit
+                            env.loop.drive(max_iters=20000)
                         if fut is not None and hasattr(fut, 'done'):
                             if not fut.done():
                                 res.hung = True
